@@ -4,7 +4,7 @@ HOOKS = {
     "guard": "--cfg winterfell_verif",
     "enable": "RUSTFLAGS='--cfg winterfell_verif' when building the harness (path deps on /repo crates); see lib/driver.py VARIANTS",
     "baseline_off_cmd": "cd /repo && cargo test --workspace --no-fail-fast --offline",
-    "source_commits": [],
+    "source_commits": ["48bc805 verif hook: expose Rp62_248 permutation and MDS under cfg(winterfell_verif)"],
     "add_only": True,
 }
 
@@ -65,4 +65,34 @@ META["C14"] = dict(
          "the actual thread count, in the serial build and in the concurrent build at 3 (6) thread counts; a TSan build "
          "must report no race and Miri no UB on the uninit_vector consumers.",
     note="Thread counts are set through RAYON_NUM_THREADS; the parallel-path predicate is derived, not hooked.",
+)
+META["C12"] = dict(
+    technique="differential monitor against naive DFT + cross-run output-digest checker over builds/thread counts + TSan + Miri",
+    text="FFT outputs are compared point by point with Horner evaluation in reference arithmetic at offset*g^i (natural "
+         "order), for every size across the 512-element recursion switch and the 1024-element concurrency threshold; "
+         "the same cases run in the serial build and in the concurrent build at several thread counts and an offline "
+         "checker requires identical output digests; TSan must be silent; Miri interprets small sizes.",
+    note="Above the full-check limit only 69 positions per output are compared with the reference; the digest comparison "
+         "then extends the serial result to the parallel runs.",
+)
+META["C15"] = dict(
+    technique="differential monitor against the blake3 / sha3 primitives on an independently assembled byte layout",
+    text="For every hasher x field the digest is recomputed with the primitive crate over bytes the monitor builds itself "
+         "from canonical little-endian values; element inputs carry non-canonical internal representations so that a "
+         "raw-memory shortcut would show.",
+    note="Trusted: blake3 and sha3 crates.",
+)
+META["C16"] = dict(
+    technique="differential monitor against a reference Rescue-Prime implementation (permutation on arbitrary states via hook, sponge/Jive rules)",
+    text="The permutation is compared on thousands of boundary-biased states with a reference that uses plain modpow for "
+         "both S-boxes and a matrix product for the MDS layer; all hashing modes are recomputed from the documented "
+         "absorption / padding / capacity / Jive rules on inputs of every block alignment.",
+    note="Constants are not re-derived (pinned by golden digests). Hook: Rp62_248::verif_apply_permutation / VERIF_MDS / VERIF_ARK*.",
+)
+META["C17"] = dict(
+    technique="collision monitor over structured input families",
+    text="Input families that collide under faulty padding (prefixes, zero extensions, terminator-byte extensions, "
+         "chunk-boundary lengths, trailing zero elements, digest-list splits, integers congruent mod p) are hashed and "
+         "every family must be collision-free.",
+    note="Only the listed families are explored; a padding fault that needs another relation between inputs is out of reach.",
 )
